@@ -365,6 +365,48 @@ fn container_leg(seed: u64) -> (u64, Vec<String>) {
                 }
             }
         }
+        // the public type aliases of every module: a fixed-length alias (stack or heap, and so its
+        // locked form) must have the length libsodium defines for that quantity — a wrong alias
+        // silently changes what length-inferring functions compute
+        {
+            use libsodium_sys as so;
+            fn alen<T: Default + Bytes>() -> usize {
+                T::default().len()
+            }
+            macro_rules! al {
+                ($($t:ty => $e:expr),* $(,)?) => {$(
+                    n += 1;
+                    let got = alen::<$t>();
+                    if got != $e as usize {
+                        bad.push(format!("type alias {} has {} bytes, libsodium defines {}", stringify!($t), got, $e as usize));
+                    }
+                )*};
+            }
+            al!(
+                dryoc::auth::Key => so::crypto_auth_KEYBYTES, dryoc::auth::Mac => so::crypto_auth_BYTES,
+                dryoc::auth::protected::Key => so::crypto_auth_KEYBYTES, dryoc::auth::protected::Mac => so::crypto_auth_BYTES,
+                dryoc::onetimeauth::Key => so::crypto_onetimeauth_KEYBYTES, dryoc::onetimeauth::Mac => so::crypto_onetimeauth_BYTES,
+                dryoc::onetimeauth::protected::Key => so::crypto_onetimeauth_KEYBYTES, dryoc::onetimeauth::protected::Mac => so::crypto_onetimeauth_BYTES,
+                dryoc::generichash::Hash => so::crypto_generichash_BYTES, dryoc::generichash::Key => so::crypto_generichash_KEYBYTES,
+                dryoc::generichash::protected::Hash => so::crypto_generichash_BYTES, dryoc::generichash::protected::Key => so::crypto_generichash_KEYBYTES,
+                dryoc::sha512::Digest => so::crypto_hash_sha512_BYTES,
+                dryoc::dryocbox::PublicKey => so::crypto_box_PUBLICKEYBYTES, dryoc::dryocbox::SecretKey => so::crypto_box_SECRETKEYBYTES,
+                dryoc::dryocbox::Nonce => so::crypto_box_NONCEBYTES, dryoc::dryocbox::Mac => so::crypto_box_MACBYTES,
+                dryoc::dryocbox::protected::PublicKey => so::crypto_box_PUBLICKEYBYTES, dryoc::dryocbox::protected::SecretKey => so::crypto_box_SECRETKEYBYTES,
+                dryoc::dryocbox::protected::Nonce => so::crypto_box_NONCEBYTES, dryoc::dryocbox::protected::Mac => so::crypto_box_MACBYTES,
+                dryoc::keypair::PublicKey => so::crypto_box_PUBLICKEYBYTES, dryoc::keypair::SecretKey => so::crypto_box_SECRETKEYBYTES,
+                dryoc::dryocsecretbox::Key => so::crypto_secretbox_KEYBYTES, dryoc::dryocsecretbox::Nonce => so::crypto_secretbox_NONCEBYTES, dryoc::dryocsecretbox::Mac => so::crypto_secretbox_MACBYTES,
+                dryoc::dryocsecretbox::protected::Key => so::crypto_secretbox_KEYBYTES, dryoc::dryocsecretbox::protected::Nonce => so::crypto_secretbox_NONCEBYTES, dryoc::dryocsecretbox::protected::Mac => so::crypto_secretbox_MACBYTES,
+                dryoc::sign::PublicKey => so::crypto_sign_PUBLICKEYBYTES, dryoc::sign::SecretKey => so::crypto_sign_SECRETKEYBYTES, dryoc::sign::Signature => so::crypto_sign_BYTES,
+                dryoc::sign::protected::PublicKey => so::crypto_sign_PUBLICKEYBYTES, dryoc::sign::protected::SecretKey => so::crypto_sign_SECRETKEYBYTES, dryoc::sign::protected::Signature => so::crypto_sign_BYTES,
+                dryoc::kx::SessionKey => so::crypto_kx_SESSIONKEYBYTES, dryoc::kx::PublicKey => so::crypto_kx_PUBLICKEYBYTES, dryoc::kx::SecretKey => so::crypto_kx_SECRETKEYBYTES,
+                dryoc::kx::protected::SessionKey => so::crypto_kx_SESSIONKEYBYTES, dryoc::kx::protected::PublicKey => so::crypto_kx_PUBLICKEYBYTES, dryoc::kx::protected::SecretKey => so::crypto_kx_SECRETKEYBYTES,
+                dryoc::kdf::Key => so::crypto_kdf_KEYBYTES, dryoc::kdf::Context => so::crypto_kdf_CONTEXTBYTES,
+                dryoc::kdf::protected::Key => so::crypto_kdf_KEYBYTES, dryoc::kdf::protected::Context => so::crypto_kdf_CONTEXTBYTES,
+                dryoc::dryocstream::Key => so::crypto_secretstream_xchacha20poly1305_KEYBYTES, dryoc::dryocstream::Header => so::crypto_secretstream_xchacha20poly1305_HEADERBYTES, dryoc::dryocstream::Nonce => 12,
+                dryoc::dryocstream::protected::Key => so::crypto_secretstream_xchacha20poly1305_KEYBYTES, dryoc::dryocstream::protected::Header => so::crypto_secretstream_xchacha20poly1305_HEADERBYTES, dryoc::dryocstream::protected::Nonce => 12,
+            );
+        }
         // every finalising form of the incremental generic hash, for several digest lengths:
         // stack, Vec (finalize and finalize_to_vec) and heap outputs must be identical
         for len in [0usize, 1, 127, 128, 129, 300] {
